@@ -6,6 +6,7 @@ import PytezosModel.Props.C06
 #print axioms C06.address_tables_eq_spec
 #print axioms C06.layout_roundtrip
 #print axioms C06.group_roundtrip
+#print axioms C06.forgeGroup_eq_canonical
 #print axioms C06.forgeGroup_injective
 #print axioms C06.entrypoint_roundtrip
 #print axioms C06.entrypoint_reserved_canonical
